@@ -24,18 +24,23 @@ var MavenPool = []string{"0.9.0", "1.0.0-alpha-1", "1.0.0-rc1", "1.0.0", "1.0.1"
 var NpmPool = []string{"0.9.0", "0.9.5", "0.10.0", "1.0.0-alpha.1", "1.0.0-rc.1", "1.0.0", "1.0.1", "1.0.2", "1.1.0", "1.1.1", "1.2.0-beta.1", "1.2.0",
 	"2.0.0-rc.1", "2.0.0", "2.0.1", "2.1.0", "2.5.0", "3.0.0-alpha", "3.0.0", "3.1.0", "4.0.0-pre", "10.0.0"}
 
-// CheckPools panics unless the pools are strictly increasing.
+// CheckChain panics unless the comparator orders the pool strictly increasing on ALL pairs (adjacent comparisons alone
+// would not show a non-transitive comparator).
+func CheckChain(name string, pool []string, cmp func(a, b string) int) {
+	for i := range pool {
+		for j := range pool {
+			c := cmp(pool[i], pool[j])
+			if (i < j && c >= 0) || (i == j && c != 0) || (i > j && c <= 0) {
+				panic(fmt.Sprintf("%s: comparator disagrees with the pool order on %q / %q", name, pool[i], pool[j]))
+			}
+		}
+	}
+}
+
+// CheckPools panics unless the pools are chains of their ecosystem's comparator.
 func CheckPools() {
-	for i := 0; i+1 < len(MavenPool); i++ {
-		if semver.Maven.Compare(MavenPool[i], MavenPool[i+1]) >= 0 {
-			panic("MavenPool not increasing at " + MavenPool[i])
-		}
-	}
-	for i := 0; i+1 < len(NpmPool); i++ {
-		if semver.NPM.Compare(NpmPool[i], NpmPool[i+1]) >= 0 {
-			panic("NpmPool not increasing at " + NpmPool[i])
-		}
-	}
+	CheckChain("MavenPool", MavenPool, semver.Maven.Compare)
+	CheckChain("NpmPool", NpmPool, semver.NPM.Compare)
 }
 
 // Pkg is one package of a universe: its versions and, per version, its dependencies "name@requirement".
@@ -43,6 +48,7 @@ type Pkg struct {
 	Name     string
 	Versions []string
 	Deps     map[string][]string
+	Tags     map[string]string `json:",omitempty"` // version -> comma separated dist-tags (npm: latest, next, beta, …)
 }
 
 // SchemaText renders packages in the schema grammar.
@@ -52,6 +58,9 @@ func SchemaText(pkgs []Pkg) string {
 		sb.WriteString(p.Name + "\n")
 		for _, v := range p.Versions {
 			sb.WriteString("\t" + v + "\n")
+			if t := p.Tags[v]; t != "" {
+				sb.WriteString("\t\tATTR: Tags " + t + "\n")
+			}
 			for _, d := range p.Deps[v] {
 				sb.WriteString("\t\t" + d + "\n")
 			}
